@@ -193,7 +193,7 @@ var checks = map[string]*check{
 			return append(gen.Parse(g, 2500), gen.ParseAll(g, 4, 7)...)
 		},
 		rule:        "EVERY string of up to 3 characters (and every 7th of length 4; thorough: every 3rd up to length 5) over {0 1 9 a _ . e p x b - +} with base argument 0 and one of 2/8/10/16 (small-scope exhaustive conformance; MC_Parse compares the recogniser with the documented EBNF on every string up to length 5 (6) at design level); Parse/SetString/UnmarshalText/json.Unmarshal/ParseDecimal/Scan of structured literals (up to thousands of digits, radix point anywhere, leading/trailing zeros, delicate digits after the precision, decimal exponents at and beyond the int32/int64 limits, binary exponents incl. unrepresentable ones), the Inf spellings and near misses, a corpus of separator/prefix edge cases, mutated literals (insert/delete/replace one or two bytes) and random strings over the grammar's alphabet, bases {0,2,8,10,16}, six modes, precision 0 and > 0; math/big's Float.Parse runs on the same strings as a second implementation of the recogniser",
-		assumptions: append(append([]string{}, commonAssumptions...), "binary exponents between 20000 and 10^10 in magnitude are left free (DESIGN 3.6)"),
+		assumptions: append(append([]string{}, commonAssumptions...), "binary exponents between 300000 and 10^10 in magnitude are left free (DESIGN 3.6)"),
 		req:         []string{"Parse:accepted", "Parse:rejected", "Parse:base10", "Parse:base16", "Parse:base2", "Parse:base8", "Parse:binary", "Parse:decimal", "Parse:inf", "Parse:tie-up", "Parse:tie-down", "SetString:accepted", "UnmarshalText:rejected", "Scan:accepted"},
 	},
 	"C13": {
